@@ -19,6 +19,8 @@
 (*   Rng         freshness as a history property (trace spec)          C11 *)
 (*   Codec       field/carrier/count grammar of encodings              C16 *)
 (*   Matrix      build configurations x backends x containers          C18 *)
+(*   Api         entry-point inventory: every public function, the         *)
+(*               modules and properties that judge it (generated)          *)
 (*   ref/*       executable transcriptions of the RFCs (RefEval)           *)
 (*                                                          C07 C12 C05 C09 *)
 (*                                                                         *)
